@@ -30,6 +30,9 @@ type component interface {
 
 var components = map[string]component{}
 
+// genProfile selects a component-specific emphasis of the random generator (gen -profile).
+var genProfile string
+
 // stats collected while generating.
 type stats struct {
 	Sequences int            `json:"sequences"`
@@ -52,6 +55,7 @@ func main() {
 		tier := fs.String("tier", "quick", "tier")
 		exh := fs.Bool("exhaustive", false, "emit the exhaustive small scope instead of random sequences")
 		statsFile := fs.String("stats", "", "write generation statistics to this file")
+		fs.StringVar(&genProfile, "profile", "", "generator profile (component specific emphasis)")
 		fs.Parse(os.Args[2:])
 		c, ok := components[*comp]
 		if !ok {
